@@ -348,4 +348,9 @@ def cliParams (wiring : List (Src × Bool)) (sw : Switches) (defaults : Toml) (r
     localPath := some (root ++ "/.xvc/config.local.toml")
     cli := some cli }
 
+/-- `flag s` guards exactly the application(s) of source `s` in the table: every entry of `s` has it,
+    no other entry mentions `s`'s flag (neither plain nor negated). -/
+def ownGuards (tbl : Table) (s : Src) : Bool :=
+  tbl.all (fun e => if e.1 = s then e.2.contains (.flag s) else !e.2.contains (.flag s) && !e.2.contains (.nflag s))
+
 end Cfg
